@@ -3,6 +3,7 @@ import Anysystem.Proofs.SimNetThms
 import Anysystem.Proofs.SimStepThms
 import Anysystem.Proofs.SimStepFns
 import Anysystem.Proofs.SimTimeOrder
+import Anysystem.Proofs.SimLogTimes
 /-!
 # C06 — Simulated time: delays, ordering, clocks and stepping are exact
 
@@ -62,5 +63,21 @@ namespace Anysystem
 #check @Sim.TraceTimeInv.sendLocal
 #check @Sim.TraceTimeInv.crashNode
 #check @SimTimeOrderDemo.s0_wf
+
+/- the time-bounded stepping functions in the same framework (`Proofs/SimLogTimes.lean`): `step_until_time` /
+   `step_for_duration` pop exactly the events up to the bound (`stepUntilTime_pops`: every popped event is at or before it, the
+   next live event is after it, the clock ends at the bound), and keep the three invariants (`TimeInvs`) provided the bound is
+   not in the past — `backwards_breaks` is the kernel-checked witness that a bound before the clock moves the clock backwards
+   (the model, like the library, sets it unconditionally); `step_until_no_events` and `step_until_local_message[_max_steps]`
+   keep them as iterations of `step`. -/
+#check @Sim.stepUntilTime_pops
+#check @Sim.stepForDuration_pops
+#check @Sim.TimeInvs.stepUntilTime
+#check @Sim.TimeInvs.stepForDuration
+#check @Sim.TimeInvs.stepUntilNoEvents
+#check @Sim.TimeInvs.stepUntilLocal
+#check @Sim.TimeInvs.stepUntilLocalMax
+#check @SimLogTimesDemo.backwards_breaks
+#check @SimLogTimesDemo.runAll_invs
 
 end Anysystem
